@@ -54,6 +54,8 @@ def gen_case_cfg(g):
         # likelihood exactly zero on part of the prior support (zero-weight particles)
         cfg["cut_below"] = float(coords[0].mu - g.uniform(0.0, 1.5) * coords[0].s)
     cfg["recipe"] = bool(g.random() < 0.5) and sampler != "blackjax_smc"
+    # (read by C10 only) the user's prior returns NaN, not -inf, outside its support
+    cfg["prior_nan_outside"] = bool(g.random() < 0.15) and sampler != "blackjax_smc"
     cfg["resume"] = bool(sampler == "smc" and g.random() < 0.5)
     return cfg
 
@@ -79,7 +81,7 @@ def execute(cfg):
     import jax  # noqa: F401  (x64 flag set by env)
 
     t = Target.from_desc(cfg["target"])
-    probe = Probe(t, recipe=cfg.get("recipe", False), cut_below=cfg.get("cut_below"))
+    probe = Probe(t, recipe=cfg.get("recipe", False), cut_below=cfg.get("cut_below"), prior_nan_outside=cfg.get("prior_nan_outside", False))
     t, a, probe = recorded.build(cfg, probe=probe)
     a.flow.record_emitted = True
     sampler = cfg["sampler"]
@@ -98,7 +100,7 @@ def execute(cfg):
         out["like_rows"] = probe.like_rows
         if cfg.get("resume") and len(r.payloads) >= 2:
             pay = r.payloads[len(r.payloads) // 2 - 1]
-            probe2 = Probe(t, recipe=cfg.get("recipe", False), cut_below=cfg.get("cut_below"))
+            probe2 = Probe(t, recipe=cfg.get("recipe", False), cut_below=cfg.get("cut_below"), prior_nan_outside=cfg.get("prior_nan_outside", False))
             t2, a2, probe2 = recorded.build(cfg, probe=probe2)
             r2 = recorded.record(cfg, aspire=a2, probe=probe2, rng=np.random.default_rng(999), resume_from=pay["bytes"])
             if r2.exc is not None:
